@@ -235,3 +235,36 @@ def _(c):
     c.ensures("all([close(r, e * fa / fb) and r >= 0 for r in elems(self.magnitude.error)]) and len(elems(self.magnitude.error)) == len(xs)", "uncertainties-scale-like-the-values")
     c.ensures("elems(err0) == [e for x in xs]", "the-uncertainty-array-held-before-is-not-written-to")
     c.no_raise()
+
+
+# ---- a Quantity as conversion target: the value is expressed in multiples of it; a refusal leaves the operand alone ---------------
+@contract(f"{Q}.to", ["C04", "C07"], name="Quantity.to[quantity-target]")
+def _(c):
+    for a, b in [([("k", "m", 1, 1)], [("", "m", 1, 1)]), ([("", "J", 1, 1)], [("", "erg", 1, 1)]), ([("", "min", 1, 1)], [("", "s", 1, 1)])]:
+        ua, ub, fa, fb = _scen(a, b)
+
+        def pre(bd, ua=ua, ub=ub, fa=fa, fb=fb):
+            q = bd.new(Q, bd.real("x"), ua)
+            t = bd.new(Q, bd.real("k"), ub)
+            return dict(args=[q, t], env=dict(x=q_value(bd, q), k=q_value(bd, t), fa=fa, fb=fb, t=t, ub=ub))
+        c.scenario(f"{ua}->k*{ub}", pre)
+    c.requires("k != 0")
+    c.ensures("close(self.magnitude.value * k, x * fa / fb)", "value-in-multiples-of-the-target")
+    c.ensures("t.magnitude.value == k and t.baseunits.expression == ub", "target-unchanged")
+    c.no_raise()
+
+
+@contract(f"{Q}.to", ["C04", "C07"], name="Quantity.to[quantity-target-of-other-dimension]")
+def _(c):
+    for a, b in OTHER[:5]:
+        ua, ub, fa, fb = _scen(a, b)
+
+        def pre(bd, ua=ua, ub=ub):
+            q = bd.new(Q, bd.real("x"), ua, abse=bd.real("e"))
+            t = bd.new(Q, bd.real("k"), ub)
+            return dict(args=[q, t], env=dict(x=q_value(bd, q), k=q_value(bd, t), t=t, e0=bd.getattr(bd.getattr(q, "magnitude"), "error")))
+        c.scenario(f"{ua}->k*{ub}", pre)
+    c.requires("k != 0")
+    c.raises("True", label="refused")
+    c.on_raise("self.magnitude.value == x and self.magnitude.error == e0 and self.baseunits.expression == old(self.baseunits.expression)", "quantity-unchanged")
+    c.on_raise("t.magnitude.value == k", "target-unchanged")
